@@ -164,6 +164,12 @@ def build_corpus(tier, rng):
         items.append(("repr-c", Item("E", [Variant(names[i], "unit") for i in range(nv)], repr="C")))
     items.append(("repr-c", Item("E", [Variant("A", "tuple", [Field("u8")]), Variant("B", "unit"), Variant("C", "named", [Field("i32", "a")])], repr="C")))
     items.append(("repr-c", Item("E", [Variant("A", "unit"), Variant("B", "unit", discr=7)], repr="C", dmetas=[DM("name", "Tag")])))
+    # #[repr(C)] next to align(N), in one attribute or in two, either order (no integer hint): BOTH are copied — with N = 1 or 2 the layout
+    # (size and alignment of C's int) shows whether C survived (seed C09_r15)
+    for j, form in enumerate((["C, align(1)"], ["C", "align(2)"], ["align(2), C"], ["align(1)", "C"], ["C, align(8)"], ["C", "align(16)"])):
+        ca = Item("E", [Variant("A", "unit"), Variant("B", "tuple", [Field("u8")]), Variant("Cc", "unit")] if j % 2 else [Variant("A", "unit"), Variant("B", "unit")], repr="C")
+        ca.repr_form = form
+        items.append(("repr-c-align", ca))
     # 128-bit integer reprs (no FromRepr for them, but `same #[repr]` holds: layout 16 bytes), alone, with align, with explicit discriminants
     for rp in ("u128", "i128"):
         items.append(("repr-128", Item("E", [Variant("A", "unit"), Variant("B", "unit"), Variant("C", "unit")], repr=rp)))
